@@ -1,5 +1,4 @@
-import PMV.Model.Cli
-import PMV.Spec.Docs
+import PMV.Model.CliCheck
 /-
   Helper lemmas for C13: flag parsing as a function of flag *presence*, soundness of the finite
   equivalence check, and the parametric theorem `TableOK t → ∀ argv, forwarded = documented`.
@@ -39,13 +38,6 @@ theorem equivB_sound (e1 e2 : BExp) (h : equivB e1 e2 = true) (P : String → Bo
   simpa using hall
 
 /-! ### Table well-formedness (decidable; instantiated on the generated table by `decide`) -/
-
-/-- Looking a flag up by its option string finds that flag (option strings are unique). -/
-def namesUnique (t : Table) : Bool := t.flags.all fun f => t.flags.find? (fun g => g.name == f.name) == some f
-
-/-- Every flag writing `dest` stores the same constant and has the same default. -/
-def constsConsistent (t : Table) : Bool :=
-  t.flags.all fun f => f.const == constOf t f.dest && f.dflt == defaults t f.dest
 
 /-- "Some flag writing to `d` is in argv". -/
 def hit (t : Table) (d : String) (argv : List String) : Bool :=
@@ -185,26 +177,6 @@ theorem kwExp_eval (t : Table) (hc : constsConsistent t = true) (hu : namesUniqu
     rw [kwExpAux_eval t hc hu, srcExp_eval t hc hu]
 
 /-! ### The obligation on the table, and the parametric theorem -/
-
-/-- Everything the generated table must satisfy for the CLI to mean what the documentation says. -/
-def TableOK (t : Table) : Bool :=
-  namesUnique t && constsConsistent t
-  && Spec.Docs.docFlags.all (fun f => t.flags.any fun g => g.name == f)
-  && Spec.Docs.docKw.all (fun ke => match kwExp t ke.1 with
-        | some e => equivB e ke.2
-        | none => false)
-  && t.base.all (fun b => Spec.Docs.docKw.any fun ke => ke.1 == b.1)
-
-/-- Executable twin of `TableOK` for the failing-input search: the keywords whose forwarded value is
-    not the documented function of the flags, and documented flags the parser does not know. -/
-def violations (t : Table) : List String :=
-  (if namesUnique t then [] else ["names-not-unique"]) ++
-  (if constsConsistent t then [] else ["consts-inconsistent"]) ++
-  (Spec.Docs.docFlags.filter (fun f => !(t.flags.any fun g => g.name == f))).map ("unknown-flag:" ++ ·) ++
-  (Spec.Docs.docKw.filter (fun ke => match kwExp t ke.1 with
-        | some e => !(equivB e ke.2)
-        | none => true)).map (fun ke => "kw:" ++ ke.1) ++
-  (t.base.filter (fun b => !(Spec.Docs.docKw.any fun ke => ke.1 == b.1))).map (fun b => "undocumented-kw:" ++ b.1)
 
 theorem flags_forwarded_of_tableOK (t : Table) (h : TableOK t = true) (argv : List String) :
     ∀ k e, (k, e) ∈ Spec.Docs.docKw →
